@@ -102,7 +102,12 @@ class C01(Suite):
         return None if isnan_raw(r) else "result %d is not NaN, exact result %d is out of range" % (r, e)
 
 # ---------------------------------------------------------------------------------------------
+SPECIAL = set()      # constructed special-case lines of the current run: they go first into the constant-evaluation leg
 def scalar_special_pairs(rng, ops=("mul_s", "rmul_s", "muleq_s", "div_s", "diveq_s")):
+    out = _scalar_special_pairs(rng, ops)
+    SPECIAL.update(out)
+    return out
+def _scalar_special_pairs(rng, ops):
     """(raw, integer) pairs for the mixed operators that no single-operand boundary list produces:
     both operands at an integer square root of a limit (the product sits on the limit), and the dividends that trap
     when divided by -1 in a narrower signed type (INT_MIN of every width, also scaled by 2^16)"""
